@@ -368,6 +368,56 @@ pub fn check_false_claims<S: Scheme>(c: &Case, ctx: &mut CaseCtx, prop: &str) ->
             expect_reject(ctx, prop, S::NAME, "check_combinations", "value", &r, || format!("claimed value of lc{qk} at query #{n}: {how}"))?;
         }
     }
+    if !accepted(&honest) {
+        return Ok(());
+    }
+    let sel = c.sel;
+    // ---- a commitment replaced by an honest commitment to another polynomial --------------------
+    {
+        let (qk, qz) = b.queried[(sel % b.queried.len() as u64) as usize].clone();
+        // a polynomial with a non-zero total coefficient in lc{qk}
+        let mut tot: BTreeMap<usize, S::F> = BTreeMap::new();
+        for (cf, t) in &b.terms[qk] {
+            if let Some(i) = t {
+                *tot.entry(*i).or_insert(S::F::zero()) += *cf;
+            }
+        }
+        if let Some((i, _)) = tot.into_iter().find(|(_, cf)| !cf.is_zero()) {
+            let q = super::c02::other_poly::<S>(&sess.keys.info, sess.polys[i].polynomial(), &qz, sel >> 8);
+            let lq = ark_poly_commit::LabeledPolynomial::new(sess.polys[i].label().clone(), q, sess.meta[i].bound, sess.meta[i].hiding);
+            let mut r0 = rng(sel ^ 0xc6);
+            if let Out::Ok((cq, _)) = guard(|| S::PC::commit(&sess.keys.ck, [&lq], Some(&mut r0))) {
+                let comms: Vec<&LabeledCommitment<Comm<S>>> = sess.perm_v.iter().map(|j| if *j == i { &cq[0] } else { &sess.comms[*j] }).collect();
+                let r = check_comb::<S>(&sess, &b.lcs, comms, &b.qs, &evals, &proof);
+                ctx.label("commitment_replaced");
+                expect_reject(ctx, prop, S::NAME, "check_combinations", "commitment", &r, || format!("commitment of polynomial {i} (used in lc{qk}) replaced by a commitment to q != p"))?;
+            }
+        }
+    }
+    // ---- a point label moved (algebraic schemes: rejection is overwhelming, no toy-size guard) -----
+    if matches!(S::NAME, "marlin" | "sonic" | "ipa" | "pst13" | "hyrax") {
+        let mut labels: Vec<(String, S::Pt)> = b.qs.iter().map(|(_, (pl, z))| (pl.clone(), z.clone())).collect();
+        labels.sort();
+        labels.dedup();
+        let (pl, z_old) = labels[((sel >> 16) % labels.len() as u64) as usize].clone();
+        let z_new = S::point(&sess.keys.info, &crate::util::FRaw::Rand(sel >> 20));
+        // the statement must become false: some combination queried under this label takes another value at z_new
+        let lcs_here: Vec<usize> = b.qs.iter().filter(|(_, (l, _))| *l == pl).map(|(lc, _)| lc[2..].parse::<usize>().unwrap()).collect();
+        let becomes_false = lcs_here.iter().any(|k| lc_value::<S>(&sess, &b.terms[*k], &z_new) != lc_value::<S>(&sess, &b.terms[*k], &z_old));
+        if z_new != z_old && becomes_false {
+            let qs2: QuerySet<S::Pt> = b.qs.iter().map(|(lc, (l, z))| (lc.clone(), (l.clone(), if *l == pl { z_new.clone() } else { z.clone() }))).collect();
+            let mut e2: Evaluations<S::Pt, S::F> = BTreeMap::new();
+            for (lc, (l, z)) in &b.qs {
+                let v = evals[&(lc.clone(), z.clone())];
+                let zz = if *l == pl { z_new.clone() } else { z.clone() };
+                // two labels sharing the old point value: the unmoved one keeps its own entry
+                e2.entry((lc.clone(), zz)).or_insert(v);
+            }
+            let r = check_comb::<S>(&sess, &b.lcs, sess.verifier_comms(), &qs2, &e2, &proof);
+            ctx.label("point_moved");
+            expect_reject(ctx, prop, S::NAME, "check_combinations", "point", &r, || format!("point of label {pl} replaced, claimed values kept"))?;
+        }
+    }
     Ok(())
 }
 
